@@ -410,14 +410,14 @@ fn main() {
     if let Some(v) = ctx.replay_case() {
         if v["sys"] == "bufcount" {
             let cs: Vec<usize> = v["counts"].as_array().map(|a| a.iter().map(|x| x.as_u64().unwrap_or(0) as usize).collect()).unwrap_or_default();
-            guard::enter(&v.to_string());
+            let _guard_scope = guard::scoped(&v.to_string());
             ctx.finish_replay(bufcount_case(&cs).map(|e| e.1));
         }
         let c = Case::from_json(&v).unwrap_or_else(|| {
             eprintln!("bad C09 case");
             std::process::exit(2)
         });
-        guard::enter(&v.to_string());
+        let _guard_scope = guard::scoped(&v.to_string());
         let hist: Vec<Case> = v["history"].as_array().map(|a| a.iter().filter_map(Case::from_json).collect()).unwrap_or_default();
         ctx.finish_replay(run_with_history(&hist, &c));
     }
@@ -496,7 +496,7 @@ fn main() {
                 for cont in 0..nv {
                     let c = Case { n: *n, mult: m.clone(), out, cont };
                     let cj = c.to_json();
-                    guard::enter(&cj.to_string());
+                    let _guard_scope = guard::scoped(&cj.to_string());
                     evals.fetch_add(1, Relaxed);
                     calls.fetch_add(2, Relaxed);
                     match run_case(&c, &mut p1, &mut p2) {
@@ -527,7 +527,7 @@ fn main() {
             for &c in &counts {
                 let cs = [a, b, c];
                 let case = json!({"sys":"bufcount","counts":cs});
-                guard::enter(&case.to_string());
+                let _guard_scope = guard::scoped(&case.to_string());
                 evals.fetch_add(1, Relaxed);
                 if let Some((k, m)) = bufcount_case(&cs) {
                     ctx.violation(&k, case, m, Some(&|| bufcount_case(&cs).map(|e| e.1)));
